@@ -277,6 +277,9 @@ def run(chk):
     vcn = it.call(mv, f_con, [T, P, eref])
     fact('constant: == reference viscosity', vcn, eref, mv.where(f_con))
     record_sign(chk, 'R19.4', 'constant: d viscosity / d T <= 0', sign_of(X.diff(vcn, 'temperature')), (NEG, NONPOS, ZERO), mv.where(f_con))
+    from .common import inplace_lint
+    inplace_lint(chk, repo, 'R19.6', ['TidalPy/radiogenics/radiogenic_models.py', 'TidalPy/cooling/cooling_models.py', 'TidalPy/rheology/viscosity/viscosity_models.py', 'TidalPy/rheology/partial_melt/melting_models.py'])
+    chk.floor('R19.6', 4)
     chk.floor('R19.1', 14); chk.floor('R19.2', 40); chk.floor('R19.3', 14); chk.floor('R19.4', 18)
     chk.assume('all material parameters, temperatures, thicknesses > 0; temperature contrast > float eps; layer thicker than MIN_THICKNESS; |Arrhenius exponent| < ln(float max)')
 
